@@ -121,8 +121,8 @@ type Dispatcher struct {
 	Rel     string
 	Func    *ast.FuncDecl
 	Switch  *ast.TypeSwitchStmt
-	Bind    *ast.Ident                  // the n of `switch n := x.(type)`, or nil
-	Clauses map[string]*ast.CaseClause  // kind name -> clause
+	Bind    *ast.Ident                 // the n of `switch n := x.(type)`, or nil
+	Clauses map[string]*ast.CaseClause // kind name -> clause
 	Default *ast.CaseClause
 }
 
